@@ -78,6 +78,35 @@ def _loop_ran_proof(fi, name, use_node, nid):
     return None
 
 
+def _loop_variable_proof(fi, name, nid):
+    """The read sees the name unbound only on paths on which a `for` loop that binds it did not run once (the loop variable
+    read behind its loop).  Whether the iterable can be empty is not decided here: this is the point at which the definite
+    assignment rule stops, the read is recorded with that assumption."""
+    fl, cfg = fi.flow, fi.cfg
+    loops = [n for n in cfg.nodes if n.kind == "for" and any(d.var == name and d.kind == "for" for d in fl.gen[n.id])]
+    if not loops:
+        return None
+    binders = {n.id for n in cfg.nodes if any(d.var == name and d.kind not in ("unbound", "del") for d in fl.gen[n.id])} - {l.id for l in loops}
+    loop_ids = {l.id for l in loops}
+    # search the states in which `name` is still unbound, not leaving a binding loop head by its exhausted edge
+    seen, work = {cfg.entry}, [cfg.entry]
+    while work:
+        cur = work.pop()
+        if cur == nid:
+            return None
+        if cur in binders and cur != cfg.entry:
+            continue
+        for dst, label in cfg.succ[cur]:
+            if cur in loop_ids:
+                continue        # 'iter' binds the name, the exhausted edge is the assumption
+            if dst not in seen:
+                seen.add(dst)
+                work.append(dst)
+    lp = loops[0]
+    return "loop variable of `for %s in %s` read behind the loop; unbound only if the loop body never runs (assumed not to happen, not decided)" % (
+        ast.unparse(lp.ast.target), ast.unparse(lp.ast.iter)[:60])
+
+
 def da_locals(repo, functions, oid="DA.locals"):
     """No read of a possibly-unbound local on a feasible path in the listed functions."""
     obs = []
@@ -85,7 +114,7 @@ def da_locals(repo, functions, oid="DA.locals"):
         fi = repo.function(fq)
         seen = {}
         for name, node, nid in fi.flow.possibly_unbound():
-            reason = _frozen(fi, name, nid) or _loop_ran_proof(fi, name, node, nid)
+            reason = _frozen(fi, name, nid) or _loop_ran_proof(fi, name, node, nid) or _loop_variable_proof(fi, name, nid)
             key = (name, reason is not None)
             if key in seen and reason is not None:
                 continue
